@@ -128,7 +128,7 @@ PROPS = {
     "C11": {
         "lean_modules": ["RdestModel.Props.C11"],
         "cases": {"quick": 400, "thorough": 12000},
-        "rule": "scripts for the real connection task: random interleavings of SendHave broadcasts (also for the piece being downloaded), Choke / "
+        "rule": "a fifth of the cases are minit = the bitfield the real manager answers Init with (Peer::handle_init) for random status vectors incl. Reserved pieces and piece counts around multiples of 8, compared with initBitfield and with the bit-position oracle; scripts for the real connection task: random interleavings of SendHave broadcasts (also for the piece being downloaded), Choke / "
                 "Unchoke frames, handshake position, SendOwnState; observed: order and content of Have / Bitfield frames; monitor P11 on the "
                 "implementation's and the model's trace; the manager's init bitfield is compared in the C12/C14 histories; distinct = distinct scripts",
         "assumptions": STD_ASSUME_PURE + ["the broadcast channel (capacity 32) never overflows: a task blocked in a socket write can lag and lose SendHave (runtime condition outside the model)"],
